@@ -279,11 +279,11 @@ Proof.
   cbn [pstep] in Hp.
   destruct (ps_phase ps t) eqn:Eph; try discriminate.
   destruct ((no =? k) && (total =? c_total c t)) eqn:Ec; [|discriminate]. bool_hyps. subst.
-  inversion Hp; subst; clear Hp.
+  inversion Hp; subst ps'; clear Hp.
   step_inv H.
-  exists d. split; auto. split; auto.
-  intros x. cbn [ocheck event_tid]. destruct (N.eqb_spec t x) as [->|Hne]; auto.
-  rewrite Eph. cbn [o_of_phase ostep]. rewrite !N.eqb_refl. reflexivity.
+  refine (step_goal_test _ _ _ _ _ _ _ Hsim _ _ _ _ _); auto.
+  - rewrite Eph. cbn [o_of_phase ocheck event_tid ostep]. rewrite !N.eqb_refl. reflexivity.
+  - tid_events.
 Qed.
 
 Ltac decide_tests :=
@@ -1006,3 +1006,98 @@ Definition ex_script_fails : list devent :=
   [ScriptStarted 0; ScriptFinished 0 (Fail None false); Started 0; Started 1; Started 2].
 
 Definition ex_cfg_empty : cfg := mk_cfg [] [0] (fun _ => 1) 0.
+
+(* ------------------------------------------------------------------ interleavings *)
+
+(* pstep = script/gate automaton x the automaton of the one test the event belongs to *)
+Lemma pstep_decomp c ps e hs :
+  pstep c ps e hs =
+  match gstep c (ps_next ps, ps_srun ps) e hs with
+  | None => None
+  | Some (n', b') =>
+      match event_test e with
+      | None => Some (mk_pstate (ps_phase ps) n' b')
+      | Some t =>
+          match ustep c t (ps_phase ps t) e hs with
+          | Some p' => Some (mk_pstate (upd (ps_phase ps) t p') n' b')
+          | None => None
+          end
+      end
+  end.
+Proof.
+  destruct ps as [f n b]. unfold tests_open.
+  destruct e; cbn [pstep gstep event_test ustep ps_phase ps_next ps_srun set_phase tests_open];
+    unfold tests_open; cbn [ps_phase ps_next ps_srun];
+    repeat match goal with
+    | |- context [if ?x then _ else _] => destruct x eqn:?; cbn [andb negb]
+    | |- context [match f ?t with _ => _ end] => destruct (f t) eqn:?
+    | |- context [match hs with _ => _ end] => destruct hs
+    end; try reflexivity; try discriminate.
+Qed.
+
+Lemma urun_skip c t p e hs r :
+  (forall t', event_test e = Some t' -> t' <> t) -> urun c t p ((e, hs) :: r) = urun c t p r.
+Proof.
+  intros H. cbn [urun]. destruct (event_test e) as [t'|]; auto.
+  destruct (N.eqb_spec t' t) as [->|]; auto. exfalso. eapply H; eauto.
+Qed.
+
+(* A history is well-formed iff the script/gate automaton accepts it and, for every test, the
+   events of that test form a trace of its unit: there is no other constraint between the events
+   of different tests, or between them and signals -- every interleaving is admitted. *)
+Theorem wf_protocol_decomp c : forall h ps,
+  wf_protocol_from c ps h = true <->
+  grun c (ps_next ps, ps_srun ps) h = true /\ forall t, urun c t (ps_phase ps t) h = true.
+Proof.
+  induction h as [|[e hs] h IH]; intros ps.
+  - cbn. split; auto.
+  - cbn [wf_protocol_from grun]. rewrite pstep_decomp.
+    destruct (gstep c (ps_next ps, ps_srun ps) e hs) as [[n' b']|] eqn:Eg.
+    2: { split; [discriminate|intros [H _]; discriminate]. }
+    destruct (event_test e) as [t|] eqn:Et.
+    + destruct (ustep c t (ps_phase ps t) e hs) as [p'|] eqn:Eu.
+      * rewrite IH. cbn [ps_phase ps_next ps_srun]. split.
+        -- intros [G U]. split; auto. intros x. cbn [urun]. rewrite Et.
+           destruct (N.eqb_spec t x) as [->|Hne].
+           ++ rewrite Eu. specialize (U x). rewrite upd_eq in U. exact U.
+           ++ specialize (U x). rewrite upd_neq in U by auto. exact U.
+        -- intros [G U]. split; auto. intros x. specialize (U x). cbn [urun] in U. rewrite Et in U.
+           destruct (N.eqb_spec t x) as [->|Hne].
+           ++ rewrite Eu in U. rewrite upd_eq. exact U.
+           ++ rewrite upd_neq by auto. exact U.
+      * split; [discriminate|]. intros [_ U]. specialize (U t). cbn [urun] in U.
+        rewrite Et, N.eqb_refl, Eu in U. discriminate.
+    + rewrite IH. cbn [ps_phase ps_next ps_srun]. split; intros [G U]; split; auto; intros x;
+        specialize (U x); cbn [urun] in *; rewrite Et in *; exact U.
+Qed.
+
+(* the unit automaton only reads its own test's events: its run is its run on the projection *)
+Lemma urun_projection c t : forall h p, urun c t p h = urun c t p (filter (of_test t) h).
+Proof.
+  induction h as [|[e hs] h IH]; intros p; [reflexivity|].
+  cbn [urun filter]. unfold of_test at 1. cbn [fst].
+  destruct (event_test e) as [t'|] eqn:Et; [|apply IH].
+  destruct (N.eqb_spec t' t) as [->|Hne]; [|apply IH].
+  cbn [urun]. rewrite Et, N.eqb_refl. destruct (ustep c t p e hs); auto.
+Qed.
+
+(* wf_history in the decomposed form *)
+Definition interleaving_of_unit_traces (c : cfg) (mf : option N) (dbg : bool) (h : list devent) : Prop :=
+  let ah := annotate (Live (init_for c mf dbg)) h in
+  cfg_ok c = true /\ grun c (0, false) ah = true /\
+  forall t, urun c t PIdle (filter (of_test t) ah) = true.
+
+Lemma interleaving_wf c mf dbg h :
+  interleaving_of_unit_traces c mf dbg h <-> wf_history c mf dbg h = true.
+Proof.
+  unfold interleaving_of_unit_traces, wf_history, wf_protocol. cbv zeta.
+  rewrite andb_true_iff, wf_protocol_decomp. cbn [pstate0 ps_next ps_srun ps_phase].
+  split; intros (A & B & C); repeat split; auto; intros t; specialize (C t).
+  - rewrite urun_projection. exact C.
+  - rewrite <- urun_projection. exact C.
+Qed.
+
+Theorem exit_any_interleaving c mf dbg h p :
+  interleaving_of_unit_traces c mf dbg h -> (shutdown_count h <= 2)%nat ->
+  run_exit c mf dbg h p = Some (spec_exit c h p).
+Proof. intros H. apply run_exit_spec. apply interleaving_wf. exact H. Qed.
